@@ -42,7 +42,7 @@ KIND_FILES = {
     "CDIMAGE": ("Disc.png", "x-cd.png", "x-cd2.png"),
     "MUSIC": ("Audio.bin", "song.OGG", "song.mp3x"),
 }
-STATES = ["absent", "emptysimfile", "empty", "exact", "othercase", "missing", "sub-othercase", "SUB-wrongcase", "nosuch", "spaced", "dotted", "updown"]
+STATES = ["absent", "emptysimfile", "empty", "exact", "othercase", "missing", "sub-othercase", "SUB-wrongcase", "nosuch", "spaced", "dotted", "updown", "toolong"]
 SPACED_PREFIX, SPACED_SUFFIX = " ", "　"  # a file whose real name begins with a blank and ends with U+3000
 
 
@@ -221,6 +221,8 @@ def prop_value(kind, state):
         return "nosuch/" + named
     if state == "spaced":
         return SPACED_PREFIX + named + SPACED_SUFFIX
+    if state == "toolong":
+        return "a" * 252 + ".png"  # a missing file whose name is longer than most filesystems allow (256 characters)
     if state == "dotted":
         return "./" + named
     if state == "updown":
@@ -283,6 +285,10 @@ def check_case(case):
             tree, props = property_tree(case["asset"], case["state"], case["extra"])
             paths = world.make_song(tree)
             return check_assets(world, tree, props, case["order"], paths, given=True, empty_simfile=(case["state"] == "emptysimfile"), kinds=(case["asset"],), dirspell=case.get("dirspell", "plain"))
+        if case["kind"] == "pairs":
+            acc = core.Acc()
+            explore_shard(acc, ("pairs", case["a"]))
+            return [{"clause": v["clause"], "expected": v.get("expected"), "observed": v.get("observed")} for v in acc.violations]
         if case["kind"] == "packbanner":
             return check_pack_banner(world, case["inside"], case["beside"], case["order"], case["slash"])
     finally:
@@ -388,6 +394,48 @@ def explore_shard(acc, shard):
                                 acc.violation(f["clause"], case, f["expected"], f["observed"], signature=(f["clause"], state if "raised" in f["clause"] else None))
                         world.drop_song(*paths)
             acc.sample(layer, case)
+        elif kind == "pairs":
+            # two kinds specified on ONE loader object, asked one after the other: an answer must not depend on
+            # what the object resolved before (e.g. the second property names the first one's file through a
+            # sub-directory written in another letter case - which does not exist)
+            _, a_kind = shard
+            layer = "two properties on one loader"
+            case = None
+            for b_kind in MA.KINDS:
+                if b_kind == a_kind:
+                    continue
+                tree = {}
+                for k in (a_kind, b_kind):
+                    t, _ = property_tree(k, "exact", ("named", "sub-named", "hit"))
+                    for name, v in t.items():
+                        if isinstance(v, dict):
+                            tree.setdefault(name, {}).update(v)
+                        else:
+                            tree[name] = v
+                paths = world.make_song(tree)  # one tree serves every pair of states
+                for st_a in ("exact", "sub-othercase", "othercase"):
+                    for st_b in ("exact", "sub-othercase", "SUB-wrongcase", "cross", "cross-exact", "missing"):
+                        va = prop_value(a_kind, st_a)
+                        if st_b == "cross":
+                            vb = "SUB/" + KIND_FILES[a_kind][0]  # the other kind's file through a directory that does not exist
+                        elif st_b == "cross-exact":
+                            vb = "sub/" + KIND_FILES[a_kind][0].swapcase()  # the other kind's file, legitimately
+                        else:
+                            vb = prop_value(b_kind, st_b)
+                        props = {PROP_OF[a_kind]: va, PROP_OF[b_kind]: vb}
+                        for kinds in ((a_kind, b_kind), (b_kind, a_kind)):
+                            case = {"kind": "pairs", "a": a_kind, "b": b_kind, "state_a": st_a, "state_b": st_b, "ask": list(kinds)}
+                            core.guard_cheap(acc, case)
+                            fails = check_assets(world, tree, props, 0, paths, given=True, kinds=kinds)
+                            acc.count("states")
+                            acc.count("transitions")
+                            acc.count("evaluations", 4)
+                            acc.count("nontrivial")
+                            acc.outcome("two properties asked on one loader")
+                            for f in fails:
+                                acc.violation(f["clause"], case, f["expected"], f["observed"], signature=(f["clause"], "pairs"))
+                world.drop_song(*paths)
+            acc.sample(layer, case)
         elif kind == "packbanner":
             _, first = shard
             layer = "pack banners"
@@ -435,6 +483,8 @@ def explore(run):
     for asset in MA.KINDS:
         for i in range(0, len(STATES), 2):
             shards.append(("property", asset, tuple(STATES[i:i + 2])))
+    for k in MA.KINDS:
+        shards.append(("pairs", k))
     shards.append(("packbanner", None))
     for img in ["a.png", "B.JPG", "c.jpeg", "d.GIF", "e.bmp", "f.txt", "z.PNG", "cover_png", "x.jpgx"]:
         shards.append(("packbanner", img))
@@ -455,6 +505,7 @@ def explore(run):
     core.require(acc.outcomes["completely empty simfile object given"] > 0, "empty simfile never given")
     core.require(acc.outcomes["specified file whose name begins/ends with blanks"] > 0, "no blank-edged file name")
     core.require(acc.outcomes["banner beside the pack"] > 0, "no banner beside pack")
+    core.require(acc.outcomes["two properties asked on one loader"] > 0, "no pair of properties")
     core.require(acc.outcomes["directory named relative to the current directory"] > 0, "no relative directory")
     core.require(acc.outcomes["neighbour whose name only resembles the pack's"] > 0, "no look-alike neighbour")
     return run.finish(
